@@ -655,8 +655,9 @@ func (e *EngineImpl) ExpiredIndexes(nilIndexMap *map[uint64]*meta2.IndexDuration
 		for _, pti := range e.DBPartitions[db] {
 			pti.mu.RLock()
 			for idxId := range e.DBPartitions[db][pti.id].indexBuilder {
-				if e.DBPartitions[db][pti.id].indexBuilder[idxId].Expired() {
-					res = append(res, e.DBPartitions[db][pti.id].indexBuilder[idxId].Ident())
+				iBuilder := e.DBPartitions[db][pti.id].indexBuilder[idxId]
+				if iBuilder.Expired() && !pti.indexHeldByLiveShardNoLock(iBuilder) {
+					res = append(res, iBuilder.Ident())
 				}
 			}
 			for idxId, info := range *nilIndexMap {
@@ -684,6 +685,22 @@ func (e *EngineImpl) ExpiredIndexes(nilIndexMap *map[uint64]*meta2.IndexDuration
 		}
 	}
 	return res
+}
+
+// indexHeldByLiveShardNoLock reports whether a shard of the partition that has not expired yet
+// still works with the index builder. A shard group normally ends no later than its index
+// group, so an expired index only has expired shards; but a shard group created after
+// ALTER RETENTION POLICY ... SHARD DURATION raised the shard group duration can be attached to
+// an older, shorter index group and outlive it. Deleting the index then would leave the shard's
+// series unreachable, so the index waits until the retention check has removed the shard.
+// The caller holds pti.mu.
+func (pti *DBPTInfo) indexHeldByLiveShardNoLock(iBuilder *tsi.IndexBuilder) bool {
+	for _, sh := range pti.shards {
+		if sh.GetIndexBuilder() == iBuilder && !sh.IsExpired() {
+			return true
+		}
+	}
+	return false
 }
 
 func (e *EngineImpl) ExpiredIndexesForMst(db, rp string, mst *meta2.MeasurementTTLTnfo) []*meta2.IndexIdentifier {
